@@ -22,7 +22,7 @@ inductive Arg where
   | dyn (j : Nat)
   deriving Repr, Inhabited, DecidableEq
 
-abbrev Spec := List (List Arg)
+abbrev Bsms := List (List Arg)
 
 /-- the argument loop of `as_dynamic`: `for &argument in &method.arguments { vec.push(pool.get_loadable(argument, ..)?) }` -/
 def sumArgs (f : Nat → TM Nat) : List Arg → TM Nat
@@ -36,7 +36,7 @@ def sumArgs (f : Nat → TM Nat) : List Arg → TM Nat
     pure (a + n)
 
 /-- `get_loadable(D_i)`; `level` is the recursion level being entered -/
-def resolve (spec : Spec) : Nat → Nat → Nat → TM Nat
+def resolve (spec : Bsms) : Nat → Nat → Nat → TM Nat
   | 0, level, _ => do enter level; crash Sites.stackDynamic
   | gas + 1, level, i => do
     enter level
@@ -48,13 +48,13 @@ def resolve (spec : Spec) : Nat → Nat → Nat → TM Nat
       pure (1 + n)
 
 /-- the `dyn` op -/
-def dynOp (gas : Nat) (spec : Spec) : TM Nat := resolve spec gas 1 0
+def dynOp (gas : Nat) (spec : Bsms) : TM Nat := resolve spec gas 1 0
 
 /-- `D_0` lists itself as its own bootstrap argument -/
-def selfRef : Spec := [[.dyn 0]]
+def selfRef : Bsms := [[.dyn 0]]
 
 /-- `D_i` has the two arguments `D_{i+1}, D_{i+1}` for `i < d`, `D_d` has none: `d + 1` constants -/
-def binDag : Nat → Nat → Spec
+def binDag : Nat → Nat → Bsms
   | 0, _ => [[]]
   | d + 1, i => [.dyn (i + 1), .dyn (i + 1)] :: binDag d (i + 1)
 
